@@ -577,8 +577,9 @@ fn child_main<C: Case>(args: &Args, cases: &[C]) {
         for j in a..b.min(order.len()) {
             let i = order[j];
             let c = &cases[i];
-            let secs = 30 + c.weight() / 100_000;
-            jrn::alarm(secs.min(3000) as u32);
+            // generous: the watchdog exists for hangs, and must not fire on a loaded machine
+            let secs = 300 + c.weight() / 20_000;
+            jrn::alarm(secs.min(3400) as u32);
             ctx.begin_case(i as u64, serde_json::to_value(c).unwrap());
             // a panic that escapes the per-observation traps (construction, the harness itself)
             if let Err(msg) = trap(|| c.run(&mut ctx)) {
